@@ -59,9 +59,22 @@ def run(prop, tier, seed, plan, replay_dir=None):
             rc = 1
         if replay_dir is None:
             samples = []
+            nontriv = 0      # measured: evaluations whose output is not the trivial one (no operation / empty mask / false / "[no events]")
             with open(rec) as f:
                 for ln in f:
                     m = json.loads(ln)
+                    if prop == "C15":
+                        if m["k"] in ("ino_ev", "kq", "win"):
+                            nontriv += sum(1 for r in m["recs"] if r[1] != 0)
+                        if m["k"] == "win":
+                            nontriv += sum(1 for r in m["filter"] if r[1] != 0) + sum(1 for r in m["actions"] if r[1] != 0)
+                        if m["k"] == "ino_req":
+                            nontriv += sum(1 for r in m["recs"] if r["mask"] != 0)
+                    if prop == "C16":
+                        if m["k"] == "op":
+                            nontriv += sum(h.count("1") for h in m["has"]) + sum(1 for x in m["str"] if x != "[no events]")
+                        if m["k"] == "evstr":
+                            nontriv += sum(1 for r in m["recs"] if r["op"] % 512 != 0)
                     if prop == "C15" and m["k"] in ("ino_ev", "kq", "win"):
                         samples.append({m["k"]: m["recs"][1:6]})
                     if prop == "C15" and m["k"] == "ino_req":
@@ -71,9 +84,10 @@ def run(prop, tier, seed, plan, replay_dir=None):
                     if prop == "C16" and m["k"] == "evstr":
                         samples.append({"evstr": m["recs"][5:8] + m["recs"][-2:]})
             ev = dict(property_id=prop, tier=tier, seed=seed, level="model_checking",
-                      coverage=dict(evaluations=n, distinct_nontrivial=n - 1,
+                      coverage=dict(evaluations=n, distinct_nontrivial=nontriv,
                                     rule="every input of the finite input sets stated in spec/OpsTrace.tla (Covered checks them against the records); all inputs are distinct; "
-                                         "non-trivial = every input except the all-zero one; sampled part: Op values above 16 bits (seeded)",
+                                         "non-trivial = evaluations whose recorded output is not the trivial one (no operation, empty mask, false, '[no events]'), counted from the records; "
+                                         "sampled part: Op values above 16 bits (seeded)",
                                     tables={k: dict(inputs=v["n"], mismatches=v["bad"]) for k, v in res.items()},
                                     design_theorems="MC_Ops.tla: union homomorphism per backend, request table observes exactly the requested ops, Has = intersection, OpString injective on defined bits",
                                     samples=samples, exhaustive=True),
